@@ -60,6 +60,7 @@ type Tty struct {
 	StartErr        error
 	WinSizeErr      error
 	DrainReturnsNil bool // after Drain a blocked Read returns (0,nil) instead of a deadline error
+	FailWriteAfter  int  // >= 0: the next Write accepts that many bytes and then fails (set under Locked); -1 = off
 	reads           int64
 
 	app          int32 // >0 while the application is inside a Screen call
@@ -73,7 +74,7 @@ type Tty struct {
 }
 
 func New(w, h int) *Tty {
-	t := &Tty{w: w, h: h, in: make(chan []byte), Edges: map[string]int{}, LogMax: 4000, ReadErr: errors.New("injected read error")}
+	t := &Tty{w: w, h: h, in: make(chan []byte), Edges: map[string]int{}, LogMax: 4000, ReadErr: errors.New("injected read error"), FailWriteAfter: -1}
 	return t
 }
 
@@ -248,6 +249,17 @@ func (t *Tty) Write(b []byte) (int, error) {
 	}
 	if t.KeepRaw {
 		t.Raw = append(t.Raw, b...)
+	}
+	if k := t.FailWriteAfter; k >= 0 {
+		// fault injection: the terminal takes the first k bytes of this write and then fails
+		t.FailWriteAfter = -1
+		if k > len(b) {
+			k = len(b)
+		}
+		if t.OnWrite != nil && k > 0 {
+			t.OnWrite(b[:k])
+		}
+		return k, errors.New("injected write error")
 	}
 	if t.OnWrite != nil {
 		t.OnWrite(b)
